@@ -98,6 +98,30 @@ def seq_prefix(eng, pool):
     return w, c
 
 
+def connecting_prefix(eng, pool):
+    """handshake in progress on a resumed persistent session: a QoS 1 and a QoS 2 publish carried over from an earlier
+    connection, one more publish issued before CONNACK"""
+    w = World(eng, 'pubsubs', jitter_pool=pool)
+    c0 = w.build()
+    w.begin_step('connect-0')
+    scen.connect(w, c0, 0, False)
+    w.begin_step('connack-0')
+    scen.connack(w, c0)
+    w.begin_step('requests-0')
+    c0.p.setWindowSize(4)
+    w.api(c0, 'publish', 'pub1', scen.topic(eng), mkbytearray(eng, [1]), qos=1)
+    w.api(c0, 'publish', 'pub2', scen.topic(eng), mkbytearray(eng, [2]), qos=2)
+    w.begin_step('lose-0')
+    w.lose(c0)
+    c = w.build()
+    w.begin_step('connect')
+    scen.connect(w, c, 0, False)
+    w.begin_step('early-publish')
+    c.p.setWindowSize(4)
+    w.api(c, 'publish', 'pub3', scen.topic(eng), mkbytearray(eng, [3]), qos=1)
+    return w, c
+
+
 def h_seq(eng, params):
     kinds = params['kinds']
     pkts = [scen.broker_packet(eng, k, ntopic=1, npayload=1, ngranted=1, payload_filler=params.get('filler', 0))[0] for k in kinds]
@@ -106,7 +130,7 @@ def h_seq(eng, params):
     pool = [Fraction(k % 15 + 1, 16) for k in range(256)]
 
     def run(chunks):
-        w, c = seq_prefix(eng, pool)
+        w, c = connecting_prefix(eng, pool) if params.get('state') == 'connecting' else seq_prefix(eng, pool)
         w.env.jitter_calls = 0
         mark = len(w.events)
         for ch in chunks:
@@ -150,6 +174,12 @@ def shards(tier):
     for k1 in K:
         for k2 in K:
             out.append(('seq', {'kinds': (k1, k2), 'max_cuts': 2 if not T else 3, 'all_upto': 0 if not T else 9}))
+    # the handshake completes inside the stream: CONNACK followed by traffic of a resumed session
+    for k2 in K:
+        out.append(('seq', {'kinds': ('CONNACK0', k2), 'state': 'connecting', 'max_cuts': 2 if not T else 3, 'all_upto': 0 if not T else 9}))
+        if T:
+            for k3 in ('PUBLISH1', 'PUBACK', 'PUBREC', 'PUBREL'):
+                out.append(('seq', {'kinds': ('CONNACK0', k2, k3), 'state': 'connecting', 'max_cuts': 2}))
     if T:
         for ks in itertools.product(('PUBLISH1', 'PUBLISH2', 'PUBACK', 'PUBREC', 'PUBREL', 'PUBCOMP', 'SUBACK', 'PINGRESP'), repeat=3):
             out.append(('seq', {'kinds': ks, 'max_cuts': 2}))
@@ -168,7 +198,7 @@ META = {
     'bounds': {
         'quick': '(a) 2..5 arbitrary bytes + 6-byte zero sentinel, every composition; (d) sequences of 1..2 broker packets of all 11 kinds '
                  '(identifiers, flags, 1 topic character, 1 payload byte, 1 granted code symbolic) against a connected pubsubs client with a '
-                 'QoS1 PUBLISH, two QoS2 PUBLISH, SUBSCRIBE and UNSUBSCRIBE pending: all compositions for single packets, all <=2-cut '
+                 'QoS1 PUBLISH, two QoS2 PUBLISH, SUBSCRIBE and UNSUBSCRIBE pending, and (CONNACK + one packet) against a client whose handshake is in progress on a resumed persistent session: all compositions for single packets, all <=2-cut '
                  'compositions and byte-at-a-time for pairs, then 1000 s of virtual time; (c) PUBLISH with remaining length 127/128/16383/16384 '
                  'followed by PUBACK, cuts in header, length field, body',
         'thorough': '(a) up to 7 bytes, all compositions up to 6 bytes, <=3 cuts beyond; (d) pairs with all compositions, triples with <=2 cuts; '
